@@ -134,10 +134,28 @@ def normalise_freq(f):
     return {"repeat": "repeated"}.get(s, s)
 
 
-def one(ctx, rng, tmpdir):
+def delay_families(ctx, tmpdir):
+    """a reaction whose delay family is spelled out as 'none' but which still lists delayed reactants / products (a delay
+    switched off by changing only the family: the simulators then apply the delayed part at once) next to the three real
+    families; both exports."""
+    rx = [(["G"], ["G"], "massaction", {"k": 2.0}, "none", [], ["T", "T"], {}),
+          (["T"], [], "massaction", {"k": "k1"}, "none", ["A"], [], {}),
+          (["A"], [], "massaction", {"k": "k0"}, "fixed", [], ["B"], {"delay": "tau"}),
+          (["B"], [], "massaction", {"k": "k0"}, "gaussian", [], ["A", "A"], {"mean": "mu", "std": 0.2}),
+          (["A", "B"], ["A"], "massaction", {"k": 0.5}, "gamma", ["G"], ["B", "G"], {"k": 2.0, "theta": "th"}),
+          (["T"], ["A"], "massaction", {"k": "k1"})]
+    spec = dict(species=["G", "T", "A", "B"], reactions=rx, parameters={"k0": 0.5, "k1": 1.0, "tau": 0.4, "mu": 1.2, "th": 0.25}, rules=[],
+                initial_condition_dict={"G": 1, "T": 0, "A": 4, "B": 3})
+    for stochastic in (False, True):
+        one(ctx, None, tmpdir, spec=spec, stochastic=stochastic)
+        ctx.count("delay_families")
+
+
+def one(ctx, rng, tmpdir, spec=None, stochastic=None):
     from bioscrape.types import Model
-    spec = gen_model(rng)
-    stochastic = rng.chance(1, 2)
+    if spec is None:
+        spec = gen_model(rng)
+        stochastic = rng.chance(1, 2)
     rep = {"spec": {k: (list(v) if isinstance(v, tuple) else v) for k, v in spec.items()}, "stochastic_export": stochastic}
     ctx.begin_case(rep)
     M = Model(**spec)
@@ -237,6 +255,7 @@ def run(ctx):
         for i in range(n):
             one(ctx, ctx.rng, d)
         nested_power_rate(ctx, d)
+        delay_families(ctx, d)
 
 
 def replay(ctx, obj):
